@@ -50,7 +50,7 @@ type schemaStruct struct {
 }
 
 type schemaPkg struct {
-	types   map[string]ast.Expr            // named type -> its type expression
+	types   map[string]ast.Expr                 // named type -> its type expression
 	methods map[string]map[string]*ast.FuncDecl // receiver base type -> method name -> decl
 	aliases map[string]string
 	roots   []string
